@@ -15,7 +15,7 @@ MANIFEST = {
             'argument (numbers, text, numeric text, logical, error, arrays for ranges) in forward and reverse order, and every returned value is compared with '
             'calculate() on a fresh model and with the reference evaluator. Single formulas: every tree with <= 2 operators over 1-3 reference leaves is compiled and '
             'called with the pool product in the order of its inputs mapping and compared with the same formula evaluated with the arguments as cell values. Every function is compiled twice from the same model object and the second one is judged. '
-            'Workbooks with circular references (3 mutually referring cells, each of the 6 edges absent / direct / inside an IF branch; circular handling enabled) are compiled for every single input x output choice and compared with calculate() on a fresh model. Two workbooks using INDEX/MATCH/VLOOKUP/HLOOKUP/LOOKUP and SUMIF/COUNTIF/UPPER/TEXTJOIN over constant text tables are compiled for every ordered input list x output choice and called with every argument tuple in two passes, against calculate() on a fresh model.',
+            'Workbooks with circular references (3 mutually referring cells, each of the 6 edges absent / direct / inside an IF branch; circular handling enabled) are compiled for every single input x output choice and compared with calculate() on a fresh model. Two workbooks using INDEX/MATCH/VLOOKUP/HLOOKUP/LOOKUP and SUMIF/COUNTIF/UPPER/TEXTJOIN over constant text tables are compiled for every ordered input list x output choice and called with every argument tuple in two passes, against calculate() on a fresh model.' ' Later additions: raw workbooks (lookup, criteria, SUMPRODUCT, a range with an unpopulated cell, a sparse range) judged differentially (calculate vs compiled), an interference pass (another function compiled from the same model and calculations between two calls), a calculate() with other overrides before compile(), circular models.',
     'note': 'Trusted: ref/wbeval.py, ref/scalar.py; the fresh-model calculation is an independent second reference. Blank arguments are supplied as cell inputs only.',
 }
 RULE = 'case = (workbook, inputs, outputs); inside a case every argument tuple is called twice; non-trivial = compiled and called; distinct = case key'
